@@ -92,6 +92,7 @@ var seedExpectations = []seedExpect{
 	{"C12-d", "C12", "clone.fresh", "ExprCompose"},
 	// hand-made positive controls (controls/)
 	{"globals-write", "C12", "globals.nowrite", "typeNameCache"},
+	{"rzsw-nomerge", "C02", "spirv.mergefirst", "emitImageLoadRZSW"},
 }
 
 // overlayFromPatch materialises the files a unified diff touches, patches
